@@ -56,7 +56,14 @@ def run_case(args):
             def body(sub=sub):
                 rehost.reset_state()
                 c.want_model()
-                fn(c, **sub)
+                try:
+                    fn(c, **sub)
+                except symx.Unmodelled:
+                    raise
+                except Exception as ex:      # noqa: BLE001
+                    # an exception the harness did not anticipate is a failed claim on this path, to be replayed
+                    c.observe("unexpected exception", type(ex).__name__)
+                    c.claim("no unexpected exception", False)
 
             sub_recs = eng.run(body)
             if plist is not None:
@@ -133,8 +140,10 @@ def real_main():
         except PathAbort:
             r["status"] = "abort"
         except Exception as ex:      # noqa: BLE001
-            r["status"] = "error"
+            r["status"] = "ok"
             r["error"] = "".join(traceback.format_exception(type(ex), ex, ex.__traceback__))[-3000:]
+            c.observe("unexpected exception", type(ex).__name__)
+            c.claim("no unexpected exception", False)
         r["claims"] = c.claims
         r["observed"] = c.observed
         res.append(r)
@@ -247,19 +256,28 @@ def main(argv=None):
             vexp.append((r["name"], item))
     validated = 0
     mismatches = []
+    val_violations = []
     if vjobs and not problems:
         try:
             vres = run_real(pid, a.tier, vjobs)
         except Exception as ex:      # noqa: BLE001
             problems.append(f"validation run failed: {ex}")
             vres = []
-        for (cname, item), rr in zip(vexp, vres):
+        for (cname, item), rr, vj in zip(vexp, vres, vjobs):
             if rr["status"] == "error":
                 mismatches.append(dict(case=cname, inputs=item["inputs"], error=rr["error"]))
                 continue
             if rr["status"] == "abort":
                 mismatches.append(dict(case=cname, inputs=item["inputs"],
                                        error="real run rejected inputs the symbolic path accepted"))
+                continue
+            vfailed = [lab for lab, ok in rr.get("claims", []) if not ok]
+            if vfailed:
+                # a claim that fails concretely on the real library for a solver-chosen input is a violation even if the
+                # symbolic run (e.g. under the float error model) could not refute it
+                val_violations.append(dict(property=pid, tier=a.tier, case=cname, case_idx=vj["idx"], inputs=item["inputs"],
+                                           solver_claim="path model (concrete cross-run)", failed_claims=vfailed,
+                                           observed=rr.get("observed")))
                 continue
             if rr["observed"] != item["observed"]:
                 mismatches.append(dict(case=cname, inputs=item["inputs"], sym=item["observed"],
@@ -269,7 +287,7 @@ def main(argv=None):
 
     # -- boundary witnesses (models of the reachability conditions) and the compiled backend:
     #    every claim must also hold concretely on these solver-chosen inputs, with both helper/parser backends
-    violations = []
+    violations = list(val_violations)
     wjobs, wmeta = [], []
     for r in results:
         if r.get("ok"):
